@@ -10,18 +10,20 @@
 (***************************************************************************)
 EXTENDS Integers, TLC
 CONSTANTS Vouchers, AmtClasses, RecvClasses,
+          BackDenoms,        \* the vouchers whose holder may send them back (a subset of Vouchers; bounds the model)
           HookReturnsAck     \* TRUE: the hook returns the transfer application's acknowledgement (repaired code)
 VARIABLES enabled, vbal, esc, sup, tok, registered, pairon,
           ext,    \* ext[d]: the voucher was added (AddCoin) to the pair of the externally-owned ERC-20 X
           xreg,   \* X is registered (RegisterERC20)
           xbad,   \* the registered external token misbehaves on transfer (takes a cut): conversions into it never complete
           mx,     \* X tokens held by the module account (what it can pay out)
+          out,    \* out[d]: vouchers of d sent back through the middleware and not yet settled (0: nothing outstanding)
           last
-stateVars == <<enabled, vbal, esc, sup, tok, registered, pairon, ext, xreg, xbad, mx>>
+stateVars == <<enabled, vbal, esc, sup, tok, registered, pairon, ext, xreg, xbad, mx, out>>
 vars == <<stateVars, last>>
 Val(a) == CASE a = "1" -> 1 [] a = "2" -> 2 [] OTHER -> 0
 Init == /\ enabled = TRUE /\ vbal = [d \in Vouchers |-> 0] /\ esc = vbal /\ sup = vbal /\ tok = vbal
-        /\ registered = [d \in Vouchers |-> FALSE] /\ pairon = registered /\ ext = registered /\ xreg = FALSE /\ xbad = FALSE /\ mx = 0 /\ last = [act |-> "Init", res |-> "ok"]
+        /\ registered = [d \in Vouchers |-> FALSE] /\ pairon = registered /\ ext = registered /\ xreg = FALSE /\ xbad = FALSE /\ mx = 0 /\ out = vbal /\ last = [act |-> "Init", res |-> "ok"]
 (* the transfer application's verdict *)
 TransferOK(a, r) == a \in {"1", "2"} /\ r = "user"
 Converts(d) == enabled /\ registered[d] /\ pairon[d]
@@ -35,25 +37,42 @@ RecvEff(d, a, r) ==
           ELSE IF Converts(d) /\ ext[d] /\ mx >= Val(a) /\ ~xbad
           THEN /\ tok' = [tok EXCEPT ![d] = @ + Val(a)] /\ mx' = mx - Val(a) /\ UNCHANGED <<vbal, esc, sup>>
           ELSE /\ sup' = [sup EXCEPT ![d] = @ + Val(a)] /\ vbal' = [vbal EXCEPT ![d] = @ + Val(a)] /\ UNCHANGED <<esc, tok, mx>>
-       /\ UNCHANGED <<enabled, registered, pairon, ext, xreg, xbad>>
+       /\ UNCHANGED <<enabled, registered, pairon, ext, xreg, xbad, out>>
 (* what the IBC core commits: "success" | "error" | "none" *)
 Committed(a, r) == IF ~TransferOK(a, r) THEN "error" ELSE IF HookReturnsAck THEN "success" ELSE "none"
 RegisterOK(d) == enabled /\ ~registered[d] /\ sup[d] > 0
 RegisterEff(d) == IF RegisterOK(d) THEN registered' = [registered EXCEPT ![d] = TRUE] /\ pairon' = [pairon EXCEPT ![d] = TRUE]
-                                        /\ UNCHANGED <<enabled, vbal, esc, sup, tok, ext, xreg, xbad, mx>>
+                                        /\ UNCHANGED <<enabled, vbal, esc, sup, tok, ext, xreg, xbad, mx, out>>
                   ELSE UNCHANGED stateVars
 (* RegisterERC20 of X; AddCoin of a voucher to X's pair (at most one voucher, so that X balances belong to it) *)
 RegisterExtOK == enabled /\ ~xreg
-RegisterExtEff(bad) == IF RegisterExtOK THEN xreg' = TRUE /\ xbad' = bad /\ UNCHANGED <<enabled, vbal, esc, sup, tok, registered, pairon, ext, mx>> ELSE UNCHANGED stateVars
+RegisterExtEff(bad) == IF RegisterExtOK THEN xreg' = TRUE /\ xbad' = bad /\ UNCHANGED <<enabled, vbal, esc, sup, tok, registered, pairon, ext, mx, out>> ELSE UNCHANGED stateVars
 AddExtOK(d) == enabled /\ xreg /\ ~registered[d] /\ sup[d] > 0 /\ \A e \in Vouchers : ~ext[e]
 AddExtEff(d) == IF AddExtOK(d) THEN /\ registered' = [registered EXCEPT ![d] = TRUE] /\ pairon' = [pairon EXCEPT ![d] = TRUE]
-                                    /\ ext' = [ext EXCEPT ![d] = TRUE] /\ UNCHANGED <<enabled, vbal, esc, sup, tok, xreg, xbad, mx>>
+                                    /\ ext' = [ext EXCEPT ![d] = TRUE] /\ UNCHANGED <<enabled, vbal, esc, sup, tok, xreg, xbad, mx, out>>
                 ELSE UNCHANGED stateVars
 (* a misbehaving token also takes its cut of what is handed to the module: somewhere between nothing and n arrives *)
-FundEff(n) == (IF xbad THEN \E g \in 0..n : mx' = mx + g ELSE mx' = mx + n) /\ UNCHANGED <<enabled, vbal, esc, sup, tok, registered, pairon, ext, xreg, xbad>>
+FundEff(n) == (IF xbad THEN \E g \in 0..n : mx' = mx + g ELSE mx' = mx + n) /\ UNCHANGED <<enabled, vbal, esc, sup, tok, registered, pairon, ext, xreg, xbad, out>>
 ToggleOK(d) == registered[d]
-ToggleEff(d) == IF ToggleOK(d) THEN pairon' = [pairon EXCEPT ![d] = ~@] /\ UNCHANGED <<enabled, vbal, esc, sup, tok, registered, ext, xreg, xbad, mx>> ELSE UNCHANGED stateVars
-ParamEff(on) == enabled' = on /\ UNCHANGED <<vbal, esc, sup, tok, registered, pairon, ext, xreg, xbad, mx>>
+ToggleEff(d) == IF ToggleOK(d) THEN pairon' = [pairon EXCEPT ![d] = ~@] /\ UNCHANGED <<enabled, vbal, esc, sup, tok, registered, ext, xreg, xbad, mx, out>> ELSE UNCHANGED stateVars
+ParamEff(on) == enabled' = on /\ UNCHANGED <<vbal, esc, sup, tok, registered, pairon, ext, xreg, xbad, mx, out>>
+(* The outbound direction: the holder sends vouchers back to where they came from.  The transfer application burns    *)
+(* them and commits a packet (through the middleware's SendPacket); the packet is settled exactly once, by an         *)
+(* acknowledgement or a timeout (through the middleware's OnAcknowledgementPacket / OnTimeoutPacket): a success       *)
+(* acknowledgement changes nothing more, an error acknowledgement or a timeout mints the vouchers back to the sender. *)
+SendBackOK(d, a) == d \in BackDenoms /\ a \in {"1", "2"} /\ vbal[d] >= Val(a) /\ out[d] = 0
+SendBackEff(d, a) == IF SendBackOK(d, a)
+                     THEN /\ vbal' = [vbal EXCEPT ![d] = @ - Val(a)] /\ sup' = [sup EXCEPT ![d] = @ - Val(a)] /\ out' = [out EXCEPT ![d] = Val(a)]
+                          /\ UNCHANGED <<enabled, esc, tok, registered, pairon, ext, xreg, xbad, mx>>
+                     ELSE UNCHANGED stateVars
+Outcomes == {"success", "error", "timeout"}
+SettleOK(d) == out[d] > 0
+SettleEff(d, o) == IF SettleOK(d)
+                   THEN /\ out' = [out EXCEPT ![d] = 0]
+                        /\ IF o = "success" THEN UNCHANGED <<vbal, sup>>
+                           ELSE vbal' = [vbal EXCEPT ![d] = @ + out[d]] /\ sup' = [sup EXCEPT ![d] = @ + out[d]]
+                        /\ UNCHANGED <<enabled, esc, tok, registered, pairon, ext, xreg, xbad, mx>>
+                   ELSE UNCHANGED stateVars
 Res(ok) == IF ok THEN "ok" ELSE "err"
 Next ==
   \/ \E d \in Vouchers, a \in AmtClasses, r \in RecvClasses :
@@ -64,11 +83,18 @@ Next ==
   \/ \E bad \in BOOLEAN : RegisterExtEff(bad) /\ last' = [act |-> "RegisterExt", res |-> Res(RegisterExtOK), bad |-> bad]
   \/ \E d \in Vouchers : AddExtEff(d) /\ last' = [act |-> "AddExt", res |-> Res(AddExtOK(d)), denom |-> d]
   \/ \E n \in {1, 2} : mx + n <= 3 /\ FundEff(n) /\ last' = [act |-> "Fund", res |-> "ok", n |-> n]
+  \/ \E d \in BackDenoms, a \in AmtClasses : SendBackEff(d, a) /\ last' = [act |-> "SendBack", res |-> Res(SendBackOK(d, a)), denom |-> d, amt |-> a]
+  \/ \E d \in BackDenoms, o \in Outcomes : SettleEff(d, o) /\ last' = [act |-> "Settle", res |-> Res(SettleOK(d)), denom |-> d, outcome |-> o]
 Spec == Init /\ [][Next]_vars
 (* C16 *)
 AckAlwaysCommitted == last.act = "Recv" => last.committed # "none"
 SuccessAcked == (last.act = "Recv" /\ TransferOK(last.amt, last.recv)) => last.committed = "success"
 Backed == \A d \in Vouchers : (~ext[d] => tok[d] = esc[d]) /\ (ext[d] => esc[d] = 0) /\ vbal[d] + esc[d] = sup[d]
+(* what came in over the channel is on this chain, on its way back, or was delivered back: nothing is lost or doubled *)
+NonNegative == \A d \in Vouchers : vbal[d] >= 0 /\ sup[d] >= 0 /\ out[d] >= 0
+SettledOnce == [][\A d \in Vouchers : (last'.act = "Settle" /\ last'.res = "ok" /\ last'.denom = d) => (out[d] > 0 /\ out'[d] = 0)]_vars
+RefundExact == [][\A d \in Vouchers : (last'.act = "Settle" /\ last'.res = "ok" /\ last'.denom = d) =>
+                     (vbal'[d] + sup[d] = vbal[d] + sup'[d] /\ vbal'[d] - vbal[d] = (IF last'.outcome = "success" THEN 0 ELSE out[d]))]_vars
 Bound == \A d \in Vouchers : sup[d] <= 3 /\ tok[d] <= 3
 BoundSmall == \A d \in Vouchers : sup[d] <= 2 /\ tok[d] <= 2 /\ mx <= 2
 =============================================================================
